@@ -2748,15 +2748,27 @@ class View(Module):
             )
 
             índices_set_by_trainables_in_view.append(inds[completely_in_view])
-            partial_inds = inds[partially_in_view][in_view[partially_in_view]]
-
-            # the indexing i.e. `inds[partially_in_view]` reshapes `inds`. Since the shape
-            # determines how parameters are shared, `inds` has to be returned to its
-            # original shape.
-            if inds.shape[0] > 1 and partial_inds.shape != (0,):
-                partial_inds = partial_inds.reshape(-1, 1)
-            if inds.shape[1] > 1 and partial_inds.shape != (0,):
-                partial_inds = partial_inds.reshape(1, -1)
+            # Every row of `inds` is one group of indices that share a parameter. Of a
+            # group that is partially in view, keep the entries in view; groups can end
+            # up with different sizes, so pad with an index of the same group (as
+            # `make_trainable` does).
+            partial_rows = [
+                np.asarray(row)[np.asarray(keep)]
+                for row, keep in zip(
+                    np.asarray(inds)[partially_in_view],
+                    np.asarray(in_view)[partially_in_view],
+                )
+            ]
+            if len(partial_rows) > 0:
+                max_len = max(len(row) for row in partial_rows)
+                partial_inds = np.stack(
+                    [
+                        np.pad(row, (0, max_len - len(row)), constant_values=row[0])
+                        for row in partial_rows
+                    ]
+                )
+            else:
+                partial_inds = np.zeros((0,), dtype=int)
 
             índices_set_by_trainables_in_view.append(partial_inds)
 
